@@ -153,19 +153,28 @@ def r3_each_byte_once_and_unchanged(ctx):
             else:
                 ctx.ok("line-unedited|%s" % g0.id.split("::")[-1], g.where(), "the wrapper hands the platform routine's result on as it is")
     f = ctx.need(IMPL)
-    edits = [c for g in fam for c in g.calls() if (c.callee or "").split("::")[-1] in CONTENT_CHANGERS]
+    # `v.truncate(v.len() - 1)` removes exactly the last byte, by position: it is `pop` under another name, and is held to
+    # pop's condition below
+    def _drops_last(c):
+        if (c.callee or "").split("::")[-1] != "truncate" or len(c.args) != 2:
+            return False
+        return sh(ne(c.fn.deep(c.args[1]))).replace(" ", "") == "Sub(len(%s),1)" % sh(ne(c.fn.deep(c.args[0]))).replace(" ", "").lstrip("&mut").lstrip("&")
+    edits = [c for g in fam for c in g.calls() if (c.callee or "").split("::")[-1] in CONTENT_CHANGERS and not _drops_last(c)]
     if edits:
         ctx.bad("line-edited|impl|%s" % (edits[0].callee or "").split("::")[-1], f.where(edits[0].block), "read_line edits the content of the line with `%s`: only the terminator may be removed, by position" % (edits[0].callee or "").split("::")[-1])
     else:
         ctx.ok("line-unedited|impl", f.where(), "only positional removal of the terminator (pop / copy up to the newline's index)")
     # the terminator removal is conditional on the last byte being the newline (the final line may come without one)
-    pops = [c for g in fam for c in g.calls() if (c.callee or "").split("::")[-1] == "pop"]
+    pops = [c for g in fam for c in g.calls() if (c.callee or "").split("::")[-1] == "pop" or _drops_last(c)]
     for c in pops:
         g = c.fn
         import json as _json
         guard = False
-        for S, al in g.constraints(c.block):
+        for S, al in g.constraints_threaded(c.block):
             d = sh(ne(g.deep(g.blocks[S]["t"]["d"])))
+            # the byte itself matched against the newline (`matches!(line.last(), Some(b'\n'))`)
+            if "last(" in d and "@Some.0" in d and list(al) == [10]:
+                guard = True
             if re.match(r"^eq\(last\(", d) and 0 not in al:
                 # the compared constant is a promoted `&b'\n'`: look the 10 up in the promoted bodies of this function
                 proms = _json.dumps(g.f.get("promoted", []))
